@@ -87,6 +87,82 @@ func windowMain(args []string) {
 			}
 		}(i, w)
 	}
+	// hot windows: several adders at a high pace, so that an Add lands inside the cleaner's critical path at every
+	// tick. Too many events for a full trace: the driver keeps (value, add-start, add-end) and reduces each observation
+	// to "how many samples that must be reported are missing / how many values that were never added are reported".
+	const hotWindows = 4
+	for h := 0; h < hotWindows; h++ {
+		w, err := metrics.NewWindowForVerif(time.Duration(*life) * time.Millisecond)
+		if err != nil {
+			hx.Die("%v", err)
+		}
+		type add struct{ t0, t1 int64 }
+		var amu sync.Mutex
+		adds := map[int64]add{}
+		var seq int64
+		stop := make(chan struct{})
+		var awg sync.WaitGroup
+		for a := 0; a < 4; a++ {
+			awg.Add(1)
+			go func() {
+				defer awg.Done()
+				for {
+					select {
+					case <-stop:
+						return
+					default:
+					}
+					amu.Lock()
+					seq++
+					v := seq
+					amu.Unlock()
+					t0 := us()
+					w.Add(v)
+					t1 := us()
+					amu.Lock()
+					adds[v] = add{t0, t1}
+					amu.Unlock()
+					time.Sleep(150 * time.Microsecond)
+				}
+			}()
+		}
+		wg.Add(1)
+		go func(h int, w *metrics.WindowForVerif) {
+			defer wg.Done()
+			defer w.StopForVerif()
+			const eps = 200000
+			lifeUs := int64(*life) * 1000
+			for ms() < int64(*dur) {
+				time.Sleep(230 * time.Millisecond)
+				t0 := us()
+				vals := w.Samples()
+				t1 := us()
+				got := map[int64]bool{}
+				for _, v := range vals {
+					got[v] = true
+				}
+				amu.Lock()
+				must, missing, spurious := 0, 0, 0
+				for v, a := range adds {
+					if a.t1 < t0 && a.t0+lifeUs > t1+eps {
+						must++
+						if !got[v] {
+							missing++
+						}
+					}
+				}
+				for v := range got {
+					if _, ok := adds[v]; !ok && v > seq {
+						spurious++
+					}
+				}
+				amu.Unlock()
+				put(map[string]interface{}{"ev": "hotobs", "w": 1000 + h, "t0": t0, "t1": t1, "reported": len(vals), "must": must, "missing": missing, "spurious": spurious})
+			}
+			close(stop)
+			awg.Wait()
+		}(h, w)
+	}
 	wg.Wait()
 	// order: by the moment the call RETURNED (adds first on ties), so that the judge knows every add that had returned
 	sort.SliceStable(events, func(a, b int) bool {
